@@ -178,7 +178,20 @@ func (r *relay) relayFrames(closing chan bool) error {
 				// Once an output error has occurred, the remaining frames are drained from the channel
 				// without sending them.
 			case <-readerDone:
-				return
+				// The reader is done, but frames it has already released may still be queued: both
+				// cases of the select above can be ready at once. Deliver them before stopping.
+				for {
+					select {
+					case f := <-r.output:
+						if err == nil {
+							r.destMu.Lock()
+							err = f.send(r.dest)
+							r.destMu.Unlock()
+						}
+					default:
+						return
+					}
+				}
 			}
 		}
 	}()
